@@ -414,7 +414,9 @@ def sync_policy_check(res, name, ops, recs):
                 problems.append("SyncStrategy Always: `%s` returned with %d unflushed bytes of Put/Delete records" % (r["op"], u))
             if cfg["sync"] == 2:
                 # the engine counts record bytes; block-tail padding (<= 7 bytes per block) is not a record byte
-                slack = 8 * (1 + sum(e - b for _, b, e in putdel) // 32768)
+                # (padding is written at the start of an append that begins within 7 bytes of a block end, so only a
+                # write range that spans a block boundary can contain any)
+                slack = 8 * sum(1 + (e - b) // 32768 for _, b, e in putdel if b // 32768 != (e - 1) // 32768)
                 if u >= cfg["bps"] + slack:
                     problems.append("SyncStrategy Threshold(%d): `%s` returned with %d unflushed bytes appended by acknowledged Puts/Deletes" % (
                         cfg["bps"], r["op"], u))
